@@ -185,6 +185,9 @@ func runBatch(ctx context.Context, node Node, shared *SharedStore) (Action, erro
 		if err != nil {
 			return "", fmt.Errorf("run: post failed: %w", err)
 		}
+		if action == "" {
+			action = DefaultAction
+		}
 		return action, nil
 	}
 
